@@ -64,7 +64,7 @@ func judge(r *core.Run, op, out string, v *value, what string) {
 }
 
 func run(r *core.Run) {
-	r.Rule = "malformed stream: for valid protected values of both kinds (random plaintexts, lengths 1–300) every header bit flip + sampled payload flips, truncations, extensions, every length/type/key-id field set to boundary values (2^15 … 2^64-1), pairwise splices at field boundaries; each mutant goes to every decoder and reveal entry point and, embedded in junk, to both column detectors; non-trivial = mutant differs from the valid value; distinct by mutant bytes"
+	r.Rule = "malformed stream: for valid protected values of both kinds (random plaintexts, lengths 1–300) every header bit flip + sampled payload flips, truncations, extensions, every length/type/key-id field set to boundary values (2^15 … 2^64-1), pairwise splices at field boundaries; for searchable values the 33-byte search hash replaced by the hash of another value / of another stored value / under another key, every hash byte flipped, truncated, extended, function byte changed – through the library searchable decrypts, NewHashProcessor, translator Decrypt*Searchable (hash concatenated or separate) and the two-pass hmac.Processor column chain; each mutant goes to every decoder and reveal entry point and, embedded in junk, to both column detectors; non-trivial = mutant differs from the valid value; distinct by mutant bytes"
 	rd := r.Rand
 	nvals := r.N(6, 40)
 	var vals []*value
@@ -208,7 +208,9 @@ func run(r *core.Run) {
 			}
 		}
 	}
-	// searchable-hash / foreign-key style damage is covered by C02/C09; pure garbage of boundary lengths here
+	// a swapped search hash in front of an intact envelope, through every searchable reveal entry point
+	hashMutants(r)
+	// foreign-key style damage is covered by C02; pure garbage of boundary lengths here
 	for _, l := range []int{0, 1, 3, 4, 8, 11, 12, 13, 17, 18, 19, 144, 145, 146, 157} {
 		for _, fill := range []byte{'"', '%', 0, 0xff} {
 			x := bytes.Repeat([]byte{fill}, l)
